@@ -8,7 +8,12 @@
 //! in-memory `tokio::io::duplex`.
 //!
 //! case line:
-//!   `tls <scheme> <urihost> <ops…> ; <servercert> <alpn> <srvops> <transport>`
+//!   `tls <client> [| <client>]… ; <servercert> <alpn> <srvops> <transport>`
+//!   `<client>` = `<scheme> <urihost> <ops…>`; several clients share the one server instance
+//!   (one after the other, or concurrently with `-par`), outcomes are reported per client.
+//!   `<transport>` = `tcp|duplex` + any of `-lazy` (connect_with_connector_lazy, failed call
+//!   retried once), `-x2` (each client connects twice from the same Endpoint, so the second TLS
+//!   session resumes), `-par`.
 //! `<ops…>` is the sequence of `ClientTlsConfig` builder calls, in order (may be empty):
 //!   `ca:<ca1|ca2|ica1|junk|broken>`  `cas:<a>+<b>`  `ta:<ca>`  `tas:<a>+<b>` (trust anchors)
 //!   `dom:<good|bad|other|ip|invalid>`  `id:<c1|c2|c1chain|brokencert|nokey>`
@@ -19,7 +24,9 @@
 //! `none|http11|h2first|h2last|h2only` = hand-rolled tokio-rustls acceptor with that ALPN list.
 //! `<srvops>`: `-` or `+`-joined `ServerTlsConfig` calls after `identity`: `ca:<ca>` `opt:<0|1>` `ico:<0|1>`.
 //!
-//! observed line:
+//! Also `srvcfg <op>+<op>…`: `Server::builder().tls_config(..)` alone (`ok|err:<class>|panic`).
+//!
+//! observed line (one group per client, joined by ` | `):
 //!   `res=<ok|fail:CLASS> cfg=<ok|err:…> h=<handler runs> peer=<…> ext=<…> plain=<0|1> dial=<0|1>`
 use crate::common::*;
 use std::future::Future;
@@ -141,10 +148,10 @@ const H2_PREFACE: &[u8] = b"PRI * HTTP/2.0";
 // ------------------------------------------------------------------------------------------
 // the service: one unary method; records what the handler saw
 
+/// What the handlers saw: (client index taken from the request payload, peer-cert rendering).
 #[derive(Default)]
 struct Obs {
-    runs: AtomicUsize,
-    peer: Mutex<Vec<String>>,
+    runs: Mutex<Vec<(usize, String)>>,
 }
 
 trait ExtCerts {
@@ -174,7 +181,8 @@ fn render_certs(seen: Option<&Vec<Vec<u8>>>, presented: &[Vec<u8>]) -> String {
 
 struct Svc<IO> {
     obs: Arc<Obs>,
-    presented: Arc<Vec<Vec<u8>>>,
+    /// per client index: the chain that client is configured to present (DER)
+    presented: Arc<Vec<Vec<Vec<u8>>>>,
     _io: std::marker::PhantomData<fn(IO)>,
 }
 impl<IO> Clone for Svc<IO> {
@@ -186,24 +194,30 @@ impl<IO> tonic::server::NamedService for Svc<IO> {
     const NAME: &'static str = "verif.Tls";
 }
 
+fn payload(idx: usize) -> String {
+    format!("{}#{}", MARKER, idx)
+}
+
 struct Handler<IO>(Svc<IO>);
 impl<IO: ExtCerts> tonic::server::UnaryService<String> for Handler<IO> {
     type Response = String;
     type Future = std::future::Ready<Result<tonic::Response<String>, tonic::Status>>;
     fn call(&mut self, req: tonic::Request<String>) -> Self::Future {
         let s = &self.0;
-        s.obs.runs.fetch_add(1, Ordering::SeqCst);
+        let idx = req.get_ref().rsplit('#').next().and_then(|x| x.parse::<usize>().ok()).unwrap_or(usize::MAX);
+        let empty = Vec::new();
+        let presented = s.presented.get(idx).unwrap_or(&empty);
         let api = req.peer_certs().map(|v| v.iter().map(|c| c.as_ref().to_vec()).collect::<Vec<_>>());
         let ext = IO::ext_certs(&req);
         let ext_s = match &ext {
             None => "absent".to_string(),
-            Some(c) => render_certs(c.as_ref(), &s.presented),
+            Some(c) => render_certs(c.as_ref(), presented),
         };
         s.obs
-            .peer
+            .runs
             .lock()
             .unwrap()
-            .push(format!("peer={} ext={}", render_certs(api.as_ref(), &s.presented), ext_s));
+            .push((idx, format!("peer={} ext={}", render_certs(api.as_ref(), presented), ext_s)));
         std::future::ready(Ok(tonic::Response::new(format!("echo:{}", req.get_ref()))))
     }
 }
@@ -228,14 +242,26 @@ impl<IO: ExtCerts + 'static> tower_service::Service<http::Request<tonic::body::B
 // case
 
 #[derive(Debug, Clone)]
-struct Case {
+struct ClientSpec {
     scheme: String,
     urihost: String,
     ops: Vec<String>,
+}
+
+#[derive(Debug, Clone)]
+struct Case {
+    clients: Vec<ClientSpec>,
     servercert: String,
     alpn: String,
     sops: Vec<String>,
-    transport: String,
+    /// `tcp` | `duplex`
+    base: String,
+    /// `-lazy`: connect_with_connector_lazy, a failed call is retried once
+    lazy: bool,
+    /// `-x2`: every client connects twice from the same Endpoint (the second handshake resumes)
+    twice: bool,
+    /// `-par`: all clients run concurrently against the one server
+    par: bool,
 }
 
 fn parse(case: &str) -> Option<Case> {
@@ -247,17 +273,40 @@ fn parse(case: &str) -> Option<Case> {
     if semi < 3 || t.len() != semi + 5 {
         return None;
     }
-    if !matches!(t[1], "https" | "http" | "HTTPS" | "https+ohttp" | "http+ohttps") {
+    let mut clients = Vec::new();
+    for part in t[1..semi].split(|x| *x == "|") {
+        if part.len() < 2 || !matches!(part[0], "https" | "http" | "HTTPS" | "https+ohttp" | "http+ohttps") {
+            return None;
+        }
+        clients.push(ClientSpec {
+            scheme: part[0].into(),
+            urihost: part[1].into(),
+            ops: part[2..].iter().map(|s| s.to_string()).collect(),
+        });
+    }
+    let mut tr = t[semi + 4].split('-');
+    let base = tr.next()?.to_string();
+    if base != "tcp" && base != "duplex" {
         return None;
     }
+    let (mut lazy, mut twice, mut par) = (false, false, false);
+    for f in tr {
+        match f {
+            "lazy" => lazy = true,
+            "x2" => twice = true,
+            "par" => par = true,
+            _ => return None,
+        }
+    }
     Some(Case {
-        scheme: t[1].into(),
-        urihost: t[2].into(),
-        ops: t[3..semi].iter().map(|s| s.to_string()).collect(),
+        clients,
         servercert: t[semi + 1].into(),
         alpn: t[semi + 2].into(),
         sops: if t[semi + 3] == "-" { Vec::new() } else { t[semi + 3].split('+').map(|s| s.to_string()).collect() },
-        transport: t[semi + 4].into(),
+        base,
+        lazy,
+        twice,
+        par,
     })
 }
 
@@ -464,16 +513,129 @@ fn rx_stream<T: Send + 'static>(rx: tokio::sync::mpsc::Receiver<T>) -> impl toki
     tokio_stream::wrappers::ReceiverStream::new(rx).map(Ok)
 }
 
-async fn run_case<IO: Transport>(c: Case) -> String {
-    let obs = Arc::new(Obs::default());
-    // what the client will present, syntactically: the last id: op (the model decides whether a
-    // later `roots` drops it; `presented` is only used to compare contents when certs are seen)
-    let mut presented: Vec<Vec<u8>> = Vec::new();
-    for op in &c.ops {
-        if let Some(i) = op.strip_prefix("id:") {
-            presented = cert_pem(i).map(ders).unwrap_or_default();
+struct ClientOut {
+    cfg_state: String,
+    res: String,
+    plain: bool,
+    dialed: bool,
+}
+
+/// One client: build the Endpoint through the public API, connect through a connector that dials
+/// the case's server and taps the bytes, make one unary call (twice over with `-x2`).
+async fn run_client<IO: Transport>(idx: usize, spec: ClientSpec, dial: Dialer<IO>, lazy: bool, twice: bool) -> ClientOut {
+    let bad = |why: &str| ClientOut { cfg_state: "ok".into(), res: format!("fail:{}", why), plain: false, dialed: false };
+    let log = Arc::new(Mutex::new(TapLog::default()));
+    let dials = Arc::new(AtomicUsize::new(0));
+    let Some(host) = host_of(&spec.urihost) else { return bad("bad-case") };
+    // `<scheme>+o<scheme2>`: endpoint URI with <scheme>, plus `Endpoint::origin(<scheme2>://…)`
+    let (scheme, origin) = match spec.scheme.split_once("+o") {
+        Some((s, o)) => (s, Some(format!("{}://{}:50051", o, host))),
+        None => (spec.scheme.as_str(), None),
+    };
+    let uri = format!("{}://{}:50051", scheme, host);
+    let with_origin = move |ep: Endpoint| match &origin {
+        Some(o) => ep.origin(o.parse().unwrap()),
+        None => ep,
+    };
+    let mut cfg_state = "ok".to_string();
+    let ep = if spec.ops.len() == 1 && spec.ops[0] == "auto" {
+        // the entry point generated `connect` functions use
+        match Endpoint::new(uri) {
+            Ok(e) => Some(with_origin(e)),
+            Err(e) => {
+                cfg_state = format!("err:{}", classify_cfg_err(&e));
+                None
+            }
+        }
+    } else {
+        let ep = match Endpoint::from_shared(uri) {
+            Ok(e) => e,
+            Err(_) => return bad("bad-case"),
+        };
+        match build_client_cfg(&spec.ops) {
+            None => return bad("bad-case"),
+            Some(None) => Some(with_origin(ep)),
+            Some(Some(t)) => match ep.tls_config(t) {
+                Ok(e) => Some(with_origin(e)),
+                Err(e) => {
+                    cfg_state = format!("err:{}", classify_cfg_err(&e));
+                    None
+                }
+            },
+        }
+    };
+    let mut res = "fail:config".to_string();
+    if let Some(ep) = ep {
+        let rounds = if twice { 2 } else { 1 };
+        let mut results = Vec::new();
+        for _ in 0..rounds {
+            let connector = {
+                let log = log.clone();
+                let dials = dials.clone();
+                let dial = dial.clone();
+                tower::service_fn(move |_uri: http::Uri| {
+                    let log = log.clone();
+                    let dial = dial.clone();
+                    dials.fetch_add(1, Ordering::SeqCst);
+                    async move {
+                        let io = dial().await?;
+                        Ok::<_, BoxErr>(hyper_util::rt::TokioIo::new(Tap { inner: io, log }))
+                    }
+                })
+            };
+            let ch = if lazy {
+                Ok(ep.connect_with_connector_lazy(connector))
+            } else {
+                ep.connect_with_connector(connector).await
+            };
+            let r = match ch {
+                Err(e) => format!("fail:{}", classify_err(&e)),
+                Ok(ch) => {
+                    let mut grpc = tonic::client::Grpc::new(ch);
+                    let first = one_call(&mut grpc, idx).await;
+                    if lazy && first != "ok" {
+                        // a lazily connected channel dials again for the next call: it must fail
+                        // the same way (no fallback on retry)
+                        let second = one_call(&mut grpc, idx).await;
+                        if canonical_res(&second) != canonical_res(&first) {
+                            format!("fail:retry-differs<{}|{}>", canonical_res(&first), canonical_res(&second))
+                        } else {
+                            first
+                        }
+                    } else {
+                        first
+                    }
+                }
+            };
+            results.push(r);
+        }
+        res = results[0].clone();
+        if results.len() == 2 && canonical_res(&results[1]) != canonical_res(&results[0]) {
+            res = format!("fail:second-connection-differs<{}|{}>", canonical_res(&results[0]), canonical_res(&results[1]));
         }
     }
+    let l = log.lock().unwrap();
+    let plain = contains(&l.written, H2_PREFACE) || contains(&l.written, MARKER.as_bytes());
+    ClientOut { cfg_state, res, plain, dialed: dials.load(Ordering::SeqCst) > 0 }
+}
+
+async fn run_case<IO: Transport>(c: Case) -> String {
+    let obs = Arc::new(Obs::default());
+    // what each client will present, syntactically: its last id: op (`presented` is only used to
+    // compare contents when certificates are seen; the model decides what is seen)
+    let presented: Vec<Vec<Vec<u8>>> = c
+        .clients
+        .iter()
+        .map(|cl| {
+            let mut p = Vec::new();
+            for op in &cl.ops {
+                if let Some(i) = op.strip_prefix("id:") {
+                    p = cert_pem(i).map(ders).unwrap_or_default();
+                }
+            }
+            p
+        })
+        .collect();
     let svc: Svc<IO> = Svc { obs: obs.clone(), presented: Arc::new(presented), _io: Default::default() };
 
     let (dial, rx) = match IO::pair().await {
@@ -504,11 +666,10 @@ async fn run_case<IO: Transport>(c: Case) -> String {
                     return "bad-case".into();
                 }
             }
-            let b = match Server::builder().tls_config(tls) {
+            let mut b = match Server::builder().tls_config(tls) {
                 Ok(b) => b,
                 Err(e) => return format!("harness-error:server-tls-config:{}", classify_err(&e)),
             };
-            let mut b = b;
             let router = b.add_service(svc);
             tokio::spawn(async move { router.serve_with_incoming_shutdown(rx_stream(rx), stop).await.map_err(|e| e.to_string()) })
         }
@@ -542,111 +703,62 @@ async fn run_case<IO: Transport>(c: Case) -> String {
         }
     };
 
-    // ---- client
-    let log = Arc::new(Mutex::new(TapLog::default()));
-    let dials = Arc::new(AtomicUsize::new(0));
-    let host = match host_of(&c.urihost) {
-        Some(h) => h,
-        None => return "bad-case".into(),
-    };
-    // `<scheme>+o<scheme2>`: endpoint URI with <scheme>, plus `Endpoint::origin(<scheme2>://…)`
-    let (scheme, origin) = match c.scheme.split_once("+o") {
-        Some((s, o)) => (s, Some(format!("{}://{}:50051", o, host))),
-        None => (c.scheme.as_str(), None),
-    };
-    let uri = format!("{}://{}:50051", scheme, host);
-    let with_origin = move |ep: Endpoint| match &origin {
-        Some(o) => ep.origin(o.parse().unwrap()),
-        None => ep,
-    };
-    let mut cfg_state = "ok".to_string();
-    let ep = if c.ops.len() == 1 && c.ops[0] == "auto" {
-        // the entry point generated `connect` functions use
-        match Endpoint::new(uri) {
-            Ok(e) => Some(with_origin(e)),
-            Err(e) => {
-                cfg_state = format!("err:{}", classify_cfg_err(&e));
-                None
-            }
+    // ---- clients, one after the other or all at once, against the one server
+    let mut outs: Vec<ClientOut> = Vec::new();
+    if c.par {
+        let handles: Vec<_> = c
+            .clients
+            .iter()
+            .cloned()
+            .enumerate()
+            .map(|(i, spec)| tokio::spawn(run_client::<IO>(i, spec, dial.clone(), c.lazy, c.twice)))
+            .collect();
+        for h in handles {
+            outs.push(match h.await {
+                Ok(o) => o,
+                Err(_) => ClientOut { cfg_state: "ok".into(), res: "fail:client-panicked".into(), plain: false, dialed: false },
+            });
         }
     } else {
-        let ep = match Endpoint::from_shared(uri) {
-            Ok(e) => e,
-            Err(_) => return "bad-case".into(),
-        };
-        match build_client_cfg(&c.ops) {
-            None => return "bad-case".into(),
-            Some(None) => Some(with_origin(ep)),
-            Some(Some(t)) => match ep.tls_config(t) {
-                Ok(e) => Some(with_origin(e)),
-                Err(e) => {
-                    cfg_state = format!("err:{}", classify_cfg_err(&e));
-                    None
-                }
-            },
+        for (i, spec) in c.clients.iter().cloned().enumerate() {
+            outs.push(run_client::<IO>(i, spec, dial.clone(), c.lazy, c.twice).await);
         }
-    };
-    let mut res = "fail:config".to_string();
-    if let Some(ep) = ep {
-        let connector = {
-            let log = log.clone();
-            let dials = dials.clone();
-            let dial = dial.clone();
-            tower::service_fn(move |_uri: http::Uri| {
-                let log = log.clone();
-                let dial = dial.clone();
-                dials.fetch_add(1, Ordering::SeqCst);
-                async move {
-                    let io = dial().await?;
-                    Ok::<_, BoxErr>(hyper_util::rt::TokioIo::new(Tap { inner: io, log }))
-                }
-            })
-        };
-        let lazy = c.transport.ends_with("-lazy");
-        let ch = if lazy {
-            Ok(ep.connect_with_connector_lazy(connector))
-        } else {
-            ep.connect_with_connector(connector).await
-        };
-        res = match ch {
-            Err(e) => format!("fail:{}", classify_err(&e)),
-            Ok(ch) => {
-                let mut grpc = tonic::client::Grpc::new(ch);
-                let first = one_call(&mut grpc).await;
-                if lazy && first != "ok" {
-                    // a lazily connected channel dials again for the next call: it must fail
-                    // the same way (no fallback on retry)
-                    let second = one_call(&mut grpc).await;
-                    if canonical_res(&second) != canonical_res(&first) {
-                        format!("fail:retry-differs<{}|{}>", canonical_res(&first), canonical_res(&second))
-                    } else {
-                        first
-                    }
-                } else {
-                    first
-                }
-            }
-        };
     }
-    // let the server finish whatever it is doing with this connection
+    // let the server finish whatever it is doing with these connections
     let _ = stop_tx.send(());
     drop(dial);
     let _ = tokio::time::timeout(Duration::from_secs(5), server_task).await;
 
-    let l = log.lock().unwrap();
-    let plain = contains(&l.written, H2_PREFACE) || contains(&l.written, MARKER.as_bytes());
-    let runs = obs.runs.load(Ordering::SeqCst);
-    let peer = obs.peer.lock().unwrap();
-    let peer_s = if peer.is_empty() { "peer=- ext=-".to_string() } else { peer.join(",") };
-    format!(
-        "res={} cfg={} h={} {} plain={} dial={}",
-        canonical_res(&res),
-        cfg_state,
-        runs,
-        peer_s,
-        plain as u8,
-        (dials.load(Ordering::SeqCst) > 0) as u8
-    )
+    let runs = obs.runs.lock().unwrap();
+    let mut parts = Vec::new();
+    for (i, o) in outs.iter().enumerate() {
+        let mine: Vec<&String> = runs.iter().filter(|(j, _)| *j == i).map(|(_, s)| s).collect();
+        let mut uniq: Vec<&String> = Vec::new();
+        for m in &mine {
+            if !uniq.contains(m) {
+                uniq.push(m);
+            }
+        }
+        let peer_s = if uniq.is_empty() {
+            "peer=- ext=-".to_string()
+        } else {
+            uniq.iter().map(|s| s.as_str()).collect::<Vec<_>>().join(",")
+        };
+        parts.push(format!(
+            "res={} cfg={} h={} {} plain={} dial={}",
+            canonical_res(&o.res),
+            o.cfg_state,
+            mine.len(),
+            peer_s,
+            o.plain as u8,
+            o.dialed as u8
+        ));
+    }
+    let stray = runs.iter().filter(|(j, _)| *j >= outs.len()).count();
+    if stray > 0 {
+        parts.push(format!("stray-handler-runs={}", stray));
+    }
+    parts.join(" | ")
 }
 
 /// Failure classes the model speaks about. A failure that surfaces only after tonic's own
@@ -661,7 +773,7 @@ fn canonical_res(res: &str) -> String {
         return res.to_string();
     };
     let c = match class {
-        x if x.starts_with("retry-differs") => x,
+        x if x.starts_with("retry-differs") || x.starts_with("second-connection-differs") => x,
         "config" | "https-without-tls" | "alpn-alert" | "h2-not-negotiated" | "wrong-reply"
         | "server-cert:unknown-issuer" | "server-cert:name-mismatch" => class,
         x if x.starts_with("server-cert:") => "server-cert:other",
@@ -671,14 +783,14 @@ fn canonical_res(res: &str) -> String {
     format!("fail:{}", c)
 }
 
-async fn one_call(grpc: &mut tonic::client::Grpc<tonic::transport::Channel>) -> String {
+async fn one_call(grpc: &mut tonic::client::Grpc<tonic::transport::Channel>, idx: usize) -> String {
     match grpc.ready().await {
         Err(e) => format!("fail:{}", classify_err(&e)),
         Ok(()) => {
             let path = http::uri::PathAndQuery::from_static("/verif.Tls/Call");
             let codec = tonic::codec::ProstCodec::<String, String>::default();
-            match grpc.unary(tonic::Request::new(MARKER.to_string()), path, codec).await {
-                Ok(r) if r.get_ref() == &format!("echo:{}", MARKER) => "ok".into(),
+            match grpc.unary(tonic::Request::new(payload(idx)), path, codec).await {
+                Ok(r) if r.get_ref() == &format!("echo:{}", payload(idx)) => "ok".into(),
                 Ok(_) => "fail:wrong-reply".into(),
                 Err(st) => format!("fail:{}", classify_status(&st)),
             }
@@ -773,10 +885,9 @@ pub fn execute(case: &str) -> String {
     };
     let rt = tokio::runtime::Builder::new_current_thread().enable_all().build().unwrap();
     let out = rt.block_on(async move {
-        let fut: Pin<Box<dyn Future<Output = String> + Send>> = match c.transport.as_str() {
-            "tcp" | "tcp-lazy" => Box::pin(run_case::<tokio::net::TcpStream>(c)),
-            "duplex" | "duplex-lazy" => Box::pin(run_case::<tokio::io::DuplexStream>(c)),
-            _ => return "bad-case".to_string(),
+        let fut: Pin<Box<dyn Future<Output = String> + Send>> = match c.base.as_str() {
+            "tcp" => Box::pin(run_case::<tokio::net::TcpStream>(c)),
+            _ => Box::pin(run_case::<tokio::io::DuplexStream>(c)),
         };
         match tokio::time::timeout(Duration::from_secs(20), fut).await {
             Ok(s) => s,
@@ -861,6 +972,16 @@ const CORPUS: &[&str] = &[
     "tls https good ca:ca1 id:c2 ; s1good h2 ca:ca1+opt:1 tcp",
     "tls https good ca:ca1 id:c1 id:c2 ; s1good h2 ca:ca1 tcp",
     "tls https good ca:ca1 id:c2 id:c1 ; s1good h2 ca:ca1 tcp",
+    // several clients on one server: a rejected handshake neither stops the accept loop nor
+    // opens the door for the next client; resumed sessions keep the peer certificates
+    "tls https good ca:ca1 | https good ca:ca1 id:c1 | https good ca:ca1 id:c2 | https good ca:ca1 id:c1chain ; s1good h2 ca:ca1 tcp",
+    "tls https good ca:ca1 | https good ca:ca1 id:c1 | https good ca:ca1 id:c2 | https good ca:ca1 id:c1chain ; s1good h2 ca:ca1 tcp-par",
+    "tls https good ca:ca1 id:c2 | https good ca:ca2 id:c1 | https good ca:ca1 id:c1 | http good notls | https bad ca:ca1 id:c1 | https good ca:ca1 id:c1chain ; s1good h2 ca:ca1+opt:1 duplex-par-x2",
+    "tls https good ca:ca1 id:c2 | https good ca:ca1 id:c1 | https good notls | https good ca:ca1 ; s1good h2last ca:ca1 duplex-lazy-par",
+    "tls https good ca:ca1 id:c1 ; s1good h2 ca:ca1 tcp-x2",
+    "tls https good ca:ca1 id:c1chain ; s1good h2 ca:ca1+opt:1 duplex-x2",
+    "tls http good notls | https good ca:ca1 | http good notls ; s1good h2 - tcp",
+    "tls https good notls | http good notls | https good ca:ca1 h2:1 ; s1good plain - tcp-par",
     // server configuration alone
     "srvcfg -",
     "srvcfg ca:ca1",
@@ -1085,6 +1206,23 @@ pub fn generate(tier: &str, rng: &mut Rng) -> Vec<String> {
             *rng.pick(&TRANSPORTS)
         };
         out.push(format!("tls {} {} {} ; {} {} {} {}", scheme, urihost, join_ops(&ops), servercert, alpn, sops, tr).replace("  ", " "));
+    }
+
+    // several clients, in random order, against one server instance
+    const CLIENT_POOL: [&str; 12] = [
+        "https good ca:ca1", "https good ca:ca1 id:c1", "https good ca:ca1 id:c2", "https good ca:ca1 id:c1chain",
+        "https good ca:ca2 id:c1", "https bad ca:ca1 id:c1", "https good notls", "http good notls",
+        "https good dom:bad ca:ca1", "https bad dom:good ca:ca1 id:c1", "https good ca:ca1 h2:1 id:c1", "https good auto",
+    ];
+    let nmulti = if thorough { 12000 } else { 800 };
+    for _ in 0..nmulti {
+        let k = rng.range(2, 6) as usize;
+        let clients: Vec<&str> = (0..k).map(|_| *rng.pick(&CLIENT_POOL)).collect();
+        let alpn = *rng.pick(&["h2", "h2", "h2", "h2last", "none", "plain"]);
+        let sops = *rng.pick(&SRV_OPS);
+        let base = if thorough { *rng.pick(&["tcp", "duplex", "duplex", "duplex"]) } else { *rng.pick(&["tcp", "duplex"]) };
+        let mode = *rng.pick(&["", "-par", "-par", "-x2", "-par-x2", "-lazy-par", "-lazy"]);
+        out.push(format!("tls {} ; s1good {} {} {}{}", clients.join(" | "), alpn, sops, base, mode));
     }
 
     // server configuration alone: random op sequences incl. malformed PEMs and a missing identity
